@@ -522,6 +522,14 @@ func (w *world) lookalike() (*contract, *sysCall, common.Address) {
 	sc := w.genSys(victim, nil, false)
 	topic, data := sc.event(victim)
 	c := &contract{name: "emitter", kind: cEmitter, topic: topic, data: data}
+	if w.chance(0.3) {
+		// the same data in a log without any topic (LOG0, an anonymous event): nothing for any hook to act on, and
+		// nothing that may keep the hooks from seeing the logs that follow it in the same transaction
+		c.anon = true
+		w.deploy(c, core.Emitter(nil, data), nil)
+		w.r.Count("topicless_emitters_deployed", 1)
+		return c, sc, victim
+	}
 	w.deploy(c, core.Emitter([]common.Hash{topic}, data), nil)
 	return c, sc, victim
 }
